@@ -272,6 +272,13 @@ def padd(p, i):
     return addr(idx(p, i))
 
 
+def ptr_split(t):
+    """pointer term -> (base pointer, element offset):  &P[k] -> (P, k),  P -> (P, 0)"""
+    if isinstance(t, tuple) and t and t[0] == "addr" and t[1][0] == "idx":
+        return t[1][1], t[1][2]
+    return t, ZERO
+
+
 def root_of(t):
     """the root symbol/var/global an lvalue or pointer term hangs off (None if unknown)"""
     while True:
@@ -389,7 +396,13 @@ def unop(op, a):
             return I(not c)
         if op == "~":
             return I(~c)
+    if op == "!" and isinstance(a, tuple) and a[0] == "op" and a[1] in _NEGATED:
+        # integer comparisons have an exact complement (floating comparisons are "fop" terms and are left alone)
+        return ("op", _NEGATED[a[1]], a[2], a[3])
     return ("un", op, a)
+
+
+_NEGATED = {"==": "!=", "!=": "==", "<": ">=", ">=": "<", ">": "<=", "<=": ">"}
 
 
 # ---------------------------------------------------------------- printing
